@@ -404,8 +404,8 @@ fn compute_farm_emissions(
     Ok((farm_emissions, until_epoch))
 }
 
-/// Syncs the address lp weight history for the given address and epoch_id, removing all the previous
-/// entries as the user has already claimed those epochs, and setting the weight for the current epoch.
+/// Syncs the address lp weight history for the given address and epoch_id, removing the entries up to
+/// that epoch as the user has already claimed those epochs, and setting the weight in effect for that epoch.
 pub fn sync_address_lp_weight_history(
     storage: &mut dyn Storage,
     address: &Addr,
@@ -414,21 +414,32 @@ pub fn sync_address_lp_weight_history(
     save_last_lp_weight: bool,
 ) -> Result<(), ContractError> {
     let (earliest_epoch_id, _) = get_earliest_address_lp_weight(storage, address, lp_denom)?;
-    let (latest_epoch_id, latest_address_lp_weight) =
+    let (latest_epoch_id, _) =
         get_latest_address_lp_weight(storage, address, lp_denom, current_epoch_id)?;
 
-    // remove previous entries
-    for epoch_id in earliest_epoch_id..=latest_epoch_id {
-        LP_WEIGHT_HISTORY.remove(storage, (address, lp_denom, epoch_id));
+    if !save_last_lp_weight {
+        // clear the whole history
+        for epoch_id in earliest_epoch_id..=latest_epoch_id {
+            LP_WEIGHT_HISTORY.remove(storage, (address, lp_denom, epoch_id));
+        }
+
+        return Ok(());
     }
 
-    if save_last_lp_weight {
-        // save the latest weight for the current epoch
-        LP_WEIGHT_HISTORY.save(
-            storage,
-            (address, lp_denom, *current_epoch_id),
-            &latest_address_lp_weight,
-        )?;
+    // the epochs up to current_epoch_id have been claimed: remove their entries, remembering the
+    // weight in effect at current_epoch_id. Entries recorded for later epochs have not been claimed
+    // yet, so they are kept.
+    let mut weight_at_current_epoch = None;
+    for epoch_id in earliest_epoch_id..=latest_epoch_id.min(*current_epoch_id) {
+        if let Some(weight) = LP_WEIGHT_HISTORY.may_load(storage, (address, lp_denom, epoch_id))? {
+            weight_at_current_epoch = Some(weight);
+            LP_WEIGHT_HISTORY.remove(storage, (address, lp_denom, epoch_id));
+        }
+    }
+
+    if let Some(weight) = weight_at_current_epoch {
+        // save the weight in effect for the current epoch
+        LP_WEIGHT_HISTORY.save(storage, (address, lp_denom, *current_epoch_id), &weight)?;
     }
 
     Ok(())
